@@ -79,21 +79,65 @@ def uses_x(kv):
     return "x" in kv.get("f", "").replace("-", "") or re.search(r"fl:[a-zA-Z]*x", kv.get("ast", "")) is not None
 
 
+def class_items(ast):
+    """[(negated, [item, ...])] for every class node of the compact tree"""
+    out = []
+    for m in re.finditer(r"C\(([01]);", ast):
+        i = m.end()
+        depth, cur, items = 0, "", []
+        while i < len(ast):
+            ch = ast[i]
+            if ch == "(":
+                depth += 1
+            elif ch == ")":
+                if depth == 0:
+                    break
+                depth -= 1
+            if ch == "," and depth == 0:
+                items.append(cur)
+                cur = ""
+            else:
+                cur += ch
+            i += 1
+        if cur:
+            items.append(cur)
+        out.append((m.group(1) == "1", items))
+    return out
+
+
 def reparse_key(kv):
     """emitted text that Go's parser reads as a different tree than the one the transpiler walked
     (implementation defects with their own keys; the model is the tree, Go sees the text)"""
     ast = kv.get("ast", "")
+    ascii_ = "a" in kv.get("f", "") or re.search(r"fl:[a-zA-Z]*a", ast) is not None
     if "C(0;)" in ast or "C(1;)" in ast:
         return "match:reparse:empty-class"
     if re.search(r"r\([^,()]*,c93\)", ast):
         return "match:reparse:bracket-range-end"
-    if re.search(r"C\(0;(?:[^()]|\([^()]*\))*a\(c94\)", ast) and re.search(r"a\(p1[wshv]\)", ast):
-        return "match:reparse:caret-first-after-split"
-    if uses_x(kv) and re.search(r"q\([^;]*;[01];A\(c(\d+)\)\)", ast):
-        for mm in re.finditer(r"q\([^;]*;[01];A\(c(\d+)\)\)", ast):
-            if int(mm.group(1)) in WS:
-                return "match:reparse:x-quantified-whitespace"
+    if re.search(r"q\(n:48\.\d|q\(nm:48\.\d|q\(nm:[^:;]*:48\.\d", ast):
+        return "match:reparse:repeat-leading-zero"
+    if re.search(r"q\([^;]*;[01];Q\(", ast):
+        return "match:reparse:quantified-quoted-text"
+    if re.search(r"q\([^;]*;[01];G\(fl:[^;]*;\)\)", ast):
+        return "match:reparse:quantified-flag-group"
+    for neg, items in class_items(ast):
+        if neg:
+            continue
+        split = [it for it in items if it in ("a(p1h)", "a(p1v)") or (it in ("a(p1w)", "a(p1s)") and not ascii_) or
+                 (it in ("a(p1w)", "a(p1s)") and "fl:" in ast)]
+        inside = [it for it in items if it not in split]
+        if split and inside and inside[0] == "a(c94)":
+            return "match:reparse:caret-first-after-split"
     return None
+
+
+def x_quantified_whitespace(kv):
+    """under x a quantifier whose operand is a dropped whitespace CharNode is written after the PREVIOUS
+    element (`a *` -> `a*`): that is what removing the whitespace first means, but the model's term keeps an
+    empty operand, so the m-comparison is meaningless for these patterns"""
+    if not uses_x(kv):
+        return False
+    return any(int(mm.group(1)) in WS for mm in re.finditer(r"q\([^;]*;[01];A\(c(\d+)\)\)", kv.get("ast", "")))
 
 
 def go_prefix(flags):
@@ -106,7 +150,8 @@ def go_prefix(flags):
 X_KEYS = {
     "pipe": "extended:comment-contains-pipe", "paren": "extended:comment-contains-paren",
     "bracket": "extended:comment-contains-bracket", "quantifier": "extended:comment-contains-quantifier",
-    "hashq": "extended:hash-quantified", "other": "extended:other",
+    "hashq": "extended:hash-quantified", "lonehash": "extended:lone-hash", "nlq": "extended:quantified-newline-after-comment",
+    "wsq": "extended:quantified-whitespace", "backslash": "extended:comment-contains-backslash", "other": "extended:other",
 }
 
 
@@ -170,9 +215,17 @@ def check_case(t, cid, inp, obs, exp, broke):
             t.bump(t.text_dist, "x-oracle:impl-rejects" + ("" if xref == "ERR" else "-but-stripped-source-is-valid"))
         elif itext == xref:
             t.bump(t.text_dist, "x-oracle:agree")
+        elif o.get("go") != "ok":
+            t.bump(t.text_dist, "x-oracle:differ-but-go-rejects-the-text")
+        elif o.get("xcause") == "wsq" and o.get("xm") and o.get("xm") == o.get("m"):
+            # `( ?)` -> `(?)` vs `` and the like: different text, same matcher on every subject
+            t.bump(t.text_dist, "x-oracle:differ-in-text-only(quantified whitespace, same matches)")
         else:
             cause = o.get("xcause", "other")
             key = X_KEYS.get(cause[6:] if cause.startswith("multi-") else cause, "extended:other")
+            if cause == "wsq" and reparse_key(kv) == "match:reparse:repeat-leading-zero":
+                # `x{00} +` -> `x{00}+`: Go accepts the stacked quantifier only because it reads `{00}` as literal text
+                key = "match:reparse:repeat-leading-zero"
             t.bump(t.text_dist, "x-oracle:differ")
             t.text_mism += 1
             t.fail(size, key, "%s: Transpile gives %s but removing comments/whitespace first gives %s (cause: %s)" % (label, show(itext), show(xref), cause),
@@ -194,29 +247,35 @@ def check_case(t, cid, inp, obs, exp, broke):
     em = parse_obs(exp)
     mtext = em.get("text")
 
-    # ---- c21.text: exact text, layered so that one known difference does not mask another
-    agree = True
-    cmp_i, cmp_m = itext, mtext
-    pre = go_prefix(flags)
-    if cmp_i != cmp_m and pre and cmp_m not in ("ERR", None) and cmp_i != "ERR" and cmp_m.startswith(pre) and not cmp_i.startswith(pre):
-        agree = False
-        t.text_mism += 1
-        t.fail(size, "text:global-flags-dropped", "%s: Transpile returns %s without the leading (?%s) - the literal's flags never reach Go's regexp" % (
-               label, show(itext), "".join(c for c in GOFLAGS if c in flags)), "c21.text", base, "text=" + show(itext), "text=" + show(mtext),
-               "implementation text differs from the proved model")
-        cmp_m = cmp_m[len(pre):]
-    split_bug = "(?:[]|".encode().hex()
-    if cmp_i != cmp_m and cmp_i not in ("ERR", None) and split_bug in cmp_i:
-        agree = False
-        t.text_mism += 1
-        t.fail(size, "text:empty-split-class", "%s: Transpile returns %s - `[]|[^...` is ONE bracket expression for Go" % (label, show(itext)),
-               "c21.text", base, "text=" + show(itext), "text=" + show(mtext), "implementation text differs from the proved model")
-        cmp_i = cmp_i.replace(split_bug, "(?:".encode().hex())
-    if cmp_i != cmp_m:
-        agree = False
-        t.text_mism += 1
-        t.fail(size, "text:" + feature_tags(kv), "%s: Transpile returns %s, model %s" % (label, show(itext), show(mtext)),
-               "c21.text", base, "text=" + show(itext), "text=" + show(mtext), "implementation text differs from the proved model")
+    # ---- c21.text: exact text; the two fixed defects are recognised exactly (model text = impl text up to the
+    # missing leading (?flags) / the `[]|` of an emptied class) so that they never mask another difference
+    agree = itext == mtext
+    if not agree:
+        pre = go_prefix(flags)
+        split_bug, split_ok = "(?:[]|".encode().hex(), "(?:".encode().hex()
+        both_text = itext not in ("ERR", None) and mtext not in ("ERR", None)
+        m1 = mtext[len(pre):] if both_text and pre and mtext.startswith(pre) else None
+        i1 = itext.replace(split_bug, split_ok) if both_text and split_bug in itext else None
+        keys = None
+        if m1 is not None and m1 == itext:
+            keys = ["text:global-flags-dropped"]
+        elif i1 is not None and i1 == mtext:
+            keys = ["text:empty-split-class"]
+        elif m1 is not None and i1 is not None and m1 == i1:
+            keys = ["text:global-flags-dropped", "text:empty-split-class"]
+        else:
+            keys = ["text:" + feature_tags(kv)]
+        for key in keys:
+            t.text_mism += 1
+            if key == "text:global-flags-dropped":
+                what = "%s: Transpile returns %s without the leading (?%s) - the literal's flags never reach Go's regexp" % (
+                    label, show(itext), "".join(c for c in GOFLAGS if c in flags))
+            elif key == "text:empty-split-class":
+                what = "%s: Transpile returns %s - `[]|[^...` is ONE bracket expression for Go" % (label, show(itext))
+            else:
+                what = "%s: Transpile returns %s, model %s" % (label, show(itext), show(mtext))
+            t.fail(size, key, what, "c21.text", base, "text=" + show(itext), "text=" + show(mtext),
+                   "implementation text differs from the proved model")
     if itext == "ERR":
         t.bump(t.text_dist, "transpile-error")
     else:
@@ -233,6 +292,9 @@ def check_case(t, cid, inp, obs, exp, broke):
         return
     t.match_cases += 1
     x = uses_x(kv)
+    if x_quantified_whitespace(kv):
+        t.bump(t.match_dist, "x-pattern with quantified whitespace (not compared)")
+        return
     t.bump(t.match_dist, "x-pattern (m only)" if x else "plain (m and e)")
     t.match_evals += len(im)
     if "0" in im and "1" in im:
@@ -273,7 +335,19 @@ RULE_MATCH = ("cases of c21.text whose emitted text Go compiles and equals the m
 
 def run(ctx):
     # EXPLANATION: filled in by b-c21-c03
-    ctx.explanation = ""
+    ctx.explanation = (
+        "PROVED in Coq (Props/C21.v), for every syntax tree, every flag set WITHOUT extended mode, every subject and every choice of "
+        "the Unicode oracles: when the transpiler model reports no failure, the emitted Go (RE2) term denotes the same position-set "
+        "transformer as the Elk tree, hence accepts exactly the same subjects (C21_denotation, C21_transpile_sound; all node kinds, the "
+        "three class modes, flags i m s U a with scoping); flags set in a group never leak (C21_flag_scoping, C21_flag_groups); "
+        "+ and * on regexes denote composition and iteration (C21_concat, C21_repeat). C21_extended_refuted: with flag x the faithful "
+        "model turns `a # x|y\\nb` into `a|yb`; C21_extended_partial: on comment-free trees (no `#` outside classes, no (?x) groups) x-mode output = output for the whitespace-stripped tree. NOT PROVED, TESTED ONLY: (a) that the Go transpiler IS the model - stream c21.text "
+        "compares the emitted text exactly, on trees returned by Go's own regex parser; (b) that Go's regexp reads the printed text as "
+        "the structured term and implements the assumed semantics m2, and that the compiled matcher accepts what the Elk tree denotes - "
+        "stream c21.match; (c) everything about extended mode (x): text comparison plus the direct oracle "
+        "Transpile(src, x) == Transpile(strip_x(src)) on the implementation's own outputs. Unicode tables, fold orbits and POSIX "
+        "tables are oracles instantiated per case from the live Go packages. The model mirrors the code AFTER fixes/C21-global-flags.patch "
+        "and fixes/C21-empty-split-class.patch; on a tree without them the check reports those two defects.")
     ctx.trusted_base += [
         "Go regexp/syntax + regexp engine: trusted specification of the emitted RE2 subset (m2 in Model/C21_RegexSem.v), validated per case by stream c21.match",
         "unicode tables (Categories/Scripts), POSIX class tables and unicode.SimpleFold orbits: section oracles, dumped per case from the live Go packages for "
@@ -286,7 +360,7 @@ def run(ctx):
     h = vlib.build_harness("c21")
     m = vlib.build_model_exact("C21")
     corpus = os.path.join(vlib.ROOT, "corpus", "C21.text.txt")
-    per = ctx.n(2000, 10000)
+    per = ctx.n(6000, 10000)
     batches = [(ctx.sseed("c21.text"), per, True)]
     if not ctx.quick():
         batches += [(ctx.sseed("c21.text:%d" % b), per, False) for b in range(1, 10)]
